@@ -42,7 +42,7 @@ fn dispatch(op: &str, input: &mut Value) -> OpResult {
     #[cfg(feature = "k_gen")]
     "client" | "server" => k_resp::eval_op(op, input),
     #[cfg(feature = "k_gen")]
-    "graph" => k_graph::eval(op, input),
+    "graph" | "registry" => k_graph::eval(op, input),
     #[cfg(feature = "k_gen")]
     "interop" => k_resp::eval_interop(op, input),
     _ => Err(format!("unknown-op:{op}")),
